@@ -232,20 +232,24 @@ func VerifLemma_C15B_ParallelCopy() {
 		verifAssert(count == 0 && dst.puts == 0, "Copy: nothing is written when the walk failed")
 		return
 	}
-	anyObserved, clean := false, 0
+	// What the property requires (and nothing more): every failure the code saw is reported; an object is never
+	// fetched twice; an object the code reports as copied is complete; the count is the number of complete copies;
+	// and without any failure everything is copied. Whether the remaining objects are still attempted after a
+	// failure is NOT specified (stopping early, e.g. cancel-on-failure, is a legitimate implementation).
+	anyObserved, copied := false, 0
 	for i := 0; i < n; i++ {
 		o := src.objs[i]
-		verifAssert(o.gets == 1, "Copy: every object is fetched exactly once")
+		verifAssert(o.gets <= 1, "Copy: no object is fetched twice")
 		if o.observed {
 			anyObserved = true
 			continue
 		}
-		clean++
 		w := dst.objs[o.path]
-		verifAssert(w != nil, "Copy: an object without failure has been put")
-		if w == nil {
-			return
+		if o.gets == 0 || w == nil {
+			// not attempted (only legitimate after some other object failed - asserted below)
+			continue
 		}
+		copied++
 		verifAssert(string(w.wrote) == o.data, "Copy: an object without failure has the full content in the destination")
 		verifAssert(w.closed == 1 && o.closed == 1, "Copy: read and write object closed exactly once")
 		verifAssert(w.atomic == atomic, "Copy: atomic option forwarded")
@@ -259,7 +263,8 @@ func VerifLemma_C15B_ParallelCopy() {
 		verifAssert(vIsInjected(err), "Copy: the injected error is in the returned chain")
 	} else {
 		verifAssert(err == nil, "Copy: no failure, no error")
+		verifAssert(copied == n, "Copy: without any failure every object is copied")
 	}
-	verifAssert(count == clean, "Copy: returned count = objects copied without failure")
+	verifAssert(count == copied, "Copy: returned count = objects copied completely")
 	verifAssert(err != nil || count == n, "Copy: nil error implies every object was copied")
 }
